@@ -3531,7 +3531,9 @@ def dict_to_Expr(d, modifs = {}, opmode = x86_afs.u32, admode = x86_afs.u32, seg
         if ia32_rexpr.symb in d:
             return symb_to_Expr(d[ia32_rexpr.symb])
     elif is_address(d):
-        int_cast = tab_afs_int[admode]
+        # the width of the address arithmetic (MMX/SSE rows leave their
+        # register file, mm or xmm, in admode)
+        int_cast = tab_afs_int[[x86_afs.u32, x86_afs.u16][admode == x86_afs.u16]]
         #segm = None
         # XXX test
         segm = x86_afs.r_ds
